@@ -107,10 +107,20 @@ func vSelfRequiring(ts []vType, root int) bool {
 }
 
 func vBuildProject(n int) ([]vType, *JSchema) {
+	nf := make([]int, n)
+	for i := range nf {
+		nf[i] = zzverif.IntRange("fields", 1, zzverif.Bound("maxFields", 1, 2))
+	}
+	return vBuildProjectWith(nf)
+}
+
+// vBuildProjectWith: len(nf) object types, type i with nf[i] members of every
+// edge kind and every target.
+func vBuildProjectWith(nf []int) ([]vType, *JSchema) {
+	n := len(nf)
 	ts := make([]vType, n)
 	for i := range ts {
-		nf := zzverif.IntRange("fields", 1, zzverif.Bound("maxFields", 1, 2))
-		for k := 0; k < nf; k++ {
+		for k := 0; k < nf[i]; k++ {
 			e := vEdge{kind: zzverif.IntRange("kind", 0, eKinds-1), x: zzverif.IntRange("x", 0, n-1)}
 			if e.kind == eChoice {
 				e.y = zzverif.IntRange("y", 0, n-1)
@@ -141,6 +151,24 @@ func VerifC06_Recursion() {
 	zzverif.BoundIsViolation() // Example() (and Check) must terminate
 	n := zzverif.Bound("types", 3, 3)
 	ts, root := vBuildProject(n)
+	vRecursionVerdict(ts, root)
+}
+
+// VerifC06_TwoMembers: two types, one of them with TWO members (every edge
+// kind and target for each, so an optional, nullable, array or choice member
+// stands before or after a mandatory link), the other with one.
+func VerifC06_TwoMembers() {
+	zzverif.Expect("accepted", "recursion-reported", "self-requiring")
+	zzverif.BoundIsViolation()
+	nf := []int{2, 1}
+	if zzverif.Bool("secondTypeHasTwo") {
+		nf = []int{1, 2}
+	}
+	ts, root := vBuildProjectWith(nf)
+	vRecursionVerdict(ts, root)
+}
+
+func vRecursionVerdict(ts []vType, root *JSchema) {
 	fin := vFinite(ts)
 	self := vSelfRequiring(ts, 0)
 	// mandatory cycles through two or more OTHER types (root -> @x -> @y -> root)
